@@ -457,6 +457,59 @@ def site_case(c):
         unres = cf.if_struct(g, idoms)
         fol = ",".join("%d>%s" % (i, nodes[i].follow["if"].name) for i in allv if nodes[i].follow["if"] is not None) or "-"
         return fol + " U " + (",".join(str(i) for i in sorted(int(x.name) for x in unres)) or "-")
+    if op == "swst":
+        # the real switch_struct; switch nodes are SwitchBlock objects whose `switch` has no values (order_cases
+        # then only moves the first case to `default`)
+        class _NoValues:
+            def get_values(self):
+                return []
+        allv = sorted(int(k) for k in c["nums"])
+        sws = set(c["switches"])
+        nodes = {i: (bb.SwitchBlock(str(i), _NoValues(), []) if i in sws else bb.StatementBlock(str(i), [])) for i in allv}
+        g = gr.Graph()
+        for i in allv:
+            g.add_node(nodes[i])
+        for a, b in c["edges"]:
+            g.add_edge(nodes[a], nodes[b])
+            if a in sws:
+                nodes[a].add_case(nodes[b])
+        g.entry = nodes[c["entry"]]
+        for k, v in c["nums"].items():
+            nodes[int(k)].num = v
+        idoms = {}
+        for n, d in c["idoms"]:
+            idoms[nodes[n]] = nodes[d] if d else None
+        try:
+            cf.switch_struct(g, idoms)          # returns nothing: its set `unresolved` is local
+        except (KeyError, AttributeError):
+            return "err"
+        return ",".join("%d>%s" % (i, nodes[i].follow["switch"].name) for i in allv if nodes[i].follow["switch"] is not None) or "-"
+    if op == "uattr":
+        # the real update_attribute_with of Node / CondBlock / SwitchBlock on one node; 0 = None
+        objs = {i: bb.StatementBlock(str(i), []) for i in range(1, c["n"] + 1)}
+        o = lambda i: objs[i] if i else None   # noqa
+        if c["kind"] == "c":
+            x = bb.CondBlock("x", [])
+            x.true, x.false = o(c["tf"][0]), o(c["tf"][1])
+        elif c["kind"] == "s":
+            x = bb.SwitchBlock("x", None, [])
+            x.cases = [objs[i] for i in c["cases"]]
+            for k, vs in c["ntc"]:
+                x.node_to_case[objs[k]] = list(vs)
+        else:
+            x = bb.StatementBlock("x", [])
+        x.latch = o(c["latch"])
+        for key, v in zip(list(x.follow), c["follow"]):
+            x.follow[key] = o(v)
+        x.loop_nodes = [objs[i] for i in c["loop_nodes"]]
+        x.update_attribute_with({objs[a]: objs[b] for a, b in c["nmap"]})
+        nm = lambda v: v.name if v is not None else "0"   # noqa
+        tf = "%s,%s" % (nm(x.true), nm(x.false)) if c["kind"] == "c" else "0,0"
+        cases = (",".join(n.name for n in x.cases) or "-") if c["kind"] == "s" else "-"
+        ntc = (";".join("%s:%s" % (k.name, ".".join(str(v) for v in vs)) for k, vs in x.node_to_case.items()) or "-") \
+            if c["kind"] == "s" else "-"
+        return "%s|%s|%s|%s|%s|%s" % (nm(x.latch), ",".join(nm(v) for v in x.follow.values()),
+                                      ",".join(n.name for n in x.loop_nodes) or "-", tf, cases, ntc)
     if op == "dseq":
         # the real derived_sequence; `intervals` is wrapped only to keep a reference to every interval graph
         # (the last, single-node one is not part of the returned deriv_seq)
